@@ -3,7 +3,7 @@
 From Coq Require Import ZArith NArith String List Bool.
 From Bignums Require Import BigZ.
 From V Require Import Lib.Num Lib.FermatZ Lib.Hex Prim.Bls12 Model.BlsCodec Spec.ZcashCodec
-  Proofs.BytesZ Proofs.CodecProofs.
+  Proofs.BytesZ Proofs.CodecProofs Proofs.CodecE2Proofs Proofs.Primes.
 Import ListNotations.
 Open Scope Z_scope.
 
@@ -28,23 +28,50 @@ Print Assumptions C05_sk_roundtrip.
 
 (* G1 (signatures): whatever E1_read_bytes accepts re-encodes to exactly the input;
    in particular exactly one of the two sign-bit values is accepted for a given x,
-   and every infinity encoding other than C0 00..00 is rejected.  Needs p prime
-   (no curve point has y = 0, by Fermat: -4 is not a cube mod p). *)
+   and every infinity encoding other than C0 00..00 is rejected.  Uses that p is prime
+   (Proofs/Primes.v, a checked Pocklington certificate): no curve point has y = 0, by Fermat:
+   -4 is not a cube mod p. *)
 Theorem C05_e1_decode_canonical :
-  primeZ pZ ->
   forall b P, wf b -> decode_e1 b = (VALID, P) -> encode_e1 P = b.
-Proof. exact e1_decode_canonical. Qed.
+Proof. exact (e1_decode_canonical bls_p_prime). Qed.
 Print Assumptions C05_e1_decode_canonical.
 
 (* ... and every affine curve point with reduced coordinates (whatever the package produces as a G1
-   element) encodes to bytes that decode back to exactly that point.  Needs p prime (Euler's criterion
+   element) encodes to bytes that decode back to exactly that point.  Uses p prime (Euler's criterion
    for the square root, no zero divisors for the choice of the root by the sign bit). *)
 Theorem C05_e1_encode_decode_roundtrip :
-  primeZ pZ ->
   forall x y, 0 <= x < pZ -> 0 <= y < pZ -> on_curve_Z x y ->
     decode_e1 (encode_e1 (Aff x y)) = (VALID, Aff x y).
-Proof. exact e1_encode_decode_roundtrip. Qed.
+Proof. exact (e1_encode_decode_roundtrip bls_p_prime). Qed.
 Print Assumptions C05_e1_encode_decode_roundtrip.
+
+(* G2 (public keys): whatever E2_read_bytes accepts re-encodes to exactly the input (so exactly one
+   sign-bit value is accepted per x, and the only accepted infinity encoding is C0 00..00); an
+   accepted finite point has reduced coordinates and lies on y^2 = x^3 + 4(1+u); the curve has no
+   point with y = 0 (norm argument: 32 is not a cube mod p), which is what makes the sign bit
+   meaningful for every point. *)
+Theorem C05_e2_decode_canonical :
+  forall b P, wf b -> decode_e2 b = (VALID, P) -> encode_e2 P = b.
+Proof. exact (e2_decode_canonical bls_p_prime). Qed.
+Print Assumptions C05_e2_decode_canonical.
+
+Theorem C05_e2_decoded_point_on_curve :
+  forall b x y, decode_e2 b = (VALID, Aff x y) ->
+    inF2 x /\ inF2 y /\ f2mul ZNum pZ y y = rhs2 x.
+Proof. exact e2_decode_on_curve. Qed.
+Print Assumptions C05_e2_decoded_point_on_curve.
+
+Theorem C05_e2_no_point_with_y_zero : forall x, rhs2 x <> (0, 0).
+Proof. exact (rhs2_nonzero bls_p_prime). Qed.
+Print Assumptions C05_e2_no_point_with_y_zero.
+
+(* DecodePublicKey = length guard + E2_read_bytes + membership test: an accepted key re-encodes to
+   the input and passed the G2 test of the model ([r]P = infinity) *)
+Theorem C05_public_key_decode_canonical :
+  forall b P, wf b -> decode_public_key ZNum pZ b = Some P ->
+    List.length b = 96%nat /\ encode_e2 P = b /\ e2_in_G2 ZNum pZ (to_j2 ZNum pZ P) = true.
+Proof. exact (pk_decode_canonical bls_p_prime). Qed.
+Print Assumptions C05_public_key_decode_canonical.
 
 (* The full statement "accepted BLS public keys are exactly the canonical encodings
    IN THE ZCASH FORMAT" is false of the faithful model: the coefficients of F_p^2 are
